@@ -4,14 +4,17 @@ import (
 	"errors"
 	"fmt"
 	"io"
+	"reflect"
 
 	structform "github.com/elastic/go-structform"
+	"github.com/elastic/go-structform/gotype"
 
 	"verif/harness/codec"
 	"verif/harness/gen"
 	"verif/harness/mon"
 	"verif/harness/run"
 	"verif/harness/val"
+	"verif/harness/zoo"
 )
 
 // C16: sink and visitor errors are reported to the caller, promptly and
@@ -272,4 +275,76 @@ func init() {
 		},
 		Suites: c16Suites,
 	})
+}
+
+// producer side: gotype.Fold with a visitor failing at every event index k.
+func c16Fold(c *run.C) {
+	r := c.R
+	var t reflect.Type
+	var v reflect.Value
+	var opts []gotype.FoldOption
+	switch c.Idx % 8 {
+	case 0:
+		all := append(append([]reflect.Type{}, zoo.Supported...), zoo.FoldOnly...)
+		t = all[(c.Idx/8)%len(all)]
+		v = (&gen.ValueGen{R: r, O: gen.GoValueOpts{BadUTF8: true, IfaceTypes: []reflect.Type{reflect.TypeOf(zoo.Plain{}), reflect.TypeOf(map[string]int{}), reflect.TypeOf(zoo.FoldVal{})}}}).Value(t, 0)
+	case 1:
+		t = []reflect.Type{reflect.TypeOf(withReg{}), reflect.TypeOf(withRegInline{}), reflect.TypeOf([]*regB{})}[(c.Idx/8)%3]
+		v = (&gen.ValueGen{R: r, O: gen.GoValueOpts{IfaceTypes: []reflect.Type{reflect.TypeOf(regA{}), reflect.TypeOf(0)}}}).Value(t, 0)
+		opts = []gotype.FoldOption{gotype.Folders(foldRegA, foldRegB)}
+	default:
+		t, v = genTypeValue(r, gen.GoTypeOpts{MaxDepth: 3, Extra: zoo.Supported}, gen.GoValueOpts{BadUTF8: true, SpecialF: true, MaxLen: 3})
+	}
+	basic := r.Bool()
+	c.Begin(goCase{Type: t.String(), Value: valueString(v), How: fmt.Sprintf("failing-visitor basic=%v", basic)})
+	m0 := mon.NewMonitor()
+	var sink0 structform.Visitor = m0
+	if basic {
+		sink0 = m0.Basic()
+	}
+	err0, ok := foldInto(c, v, false, sink0, opts...)
+	if !ok || err0 != nil {
+		return
+	}
+	E := m0.NEvents
+	if E > 400 {
+		return
+	}
+	c.ObserveMax("max_events_per_fold", E)
+	for k := 1; k <= E; k++ {
+		m := mon.NewMonitor()
+		m.Fail, m.FailErr = k, mon.ErrVisitor
+		var sink structform.Visitor = m
+		if basic {
+			sink = m.Basic()
+		}
+		err, ok := foldInto(c, v, k%2 == 0, sink, opts...)
+		if !ok {
+			return
+		}
+		c.Observe("fold_fault_runs", 1)
+		if err == nil {
+			c.Violationf("visitor-error-lost", "fold:visitor-error-lost", "Fold returned nil although the visitor failed at event %d of %d (%s)\ntype=%s\nvalue=%s", k, E, m0.Events[k-1].K, t, valueString(v))
+			return
+		}
+		if !errors.Is(err, mon.ErrVisitor) {
+			c.Violationf("visitor-error-changed", "fold:visitor-error-changed", "Fold returned %q, not the visitor's error (visitor failed at event %d of %d)\ntype=%s", err, k, E, t)
+			return
+		}
+		if m.After > 0 {
+			c.Violationf("events-after-error", "fold:events-after-error", "Fold delivered %d further events after the visitor failed at event %d of %d (%s)\ntype=%s\nvalue=%s", m.After, k, E, m0.Events[k-1].K, t, valueString(v))
+			return
+		}
+	}
+	c.Observe("fold_values", 1)
+	c.Observe("fold_fault_positions", E)
+	c.Nontrivial(gen.Mix(162, gen.HashString(t.String()), gen.HashString(valueString(v))))
+	if E < 10 {
+		c.Sample("fold-faults", map[string]interface{}{"type": t.String(), "value": valueString(v), "events": E})
+	}
+}
+
+func init() {
+	chk := run.Lookup("C16")
+	chk.Suites = append(chk.Suites, &run.Suite{Name: "fold", N: tierN(30000, 600000), Case: c16Fold, Require: []string{"fold_fault_runs", "fold_values"}})
 }
